@@ -1036,6 +1036,10 @@ def _imh_strategy(tier):
         lay = draw(st.sampled_from(["contig", "contig"] + LAYOUTS[1:]))
         if lay != "contig":
             case["sample_layout"] = lay
+        # call pattern: the distribution's parameters are changed in place (an optimizer step, load_state_dict)
+        # between the construction of the estimator and its call; proposal and target still coincide
+        if draw(st.integers(0, 2)) == 0:
+            case["param_shift"] = draw(st.lists(st.integers(-8, 8).filter(lambda k: k != 0), min_size=1, max_size=3))
         return case
 
     return build()
@@ -1051,7 +1055,7 @@ def _imh_proposals(spec, ndraws, B, S):
 @subcheck("C19", "imh_accepts_all", _imh_strategy, 500, 10000,
           doc="IndependentMetropolisHastingsEstimator with proposal == target (same object or equal parameters), scripted proposals and scripted uniforms of any value in [0, 1): result == plain average (log-mean-exp in log space) of f over the post-burn-in proposals; initial sample drawn or handed over (with / without leading singleton); 1 case in 12 with 15..1025 (2049) samples (proposals from a rule); the estimator object called a second time; proposals and the initial sample as transposed / offset views",
           required_classes=["init_drawn", "init_given", "burn_in_positive", "is_log", "uniform_zero_or_max",
-                            "big_mc", "second_call", "samples_transposed", "samples_offset"])
+                            "big_mc", "second_call", "samples_transposed", "samples_offset", "given_start_and_parameters_changed"])
 def _imh_check(case):
     import torch
     from pydrobert.torch.estimators import IndependentMetropolisHastingsEstimator as IMH
@@ -1081,6 +1085,18 @@ def _imh_check(case):
         init_before = init.clone()
     est = IMH(proposal, func, mc, density, burn_in=burn, is_log=is_log, **kwargs)
     fmax = max(abs(x) for r in case["f"] for x in r)
+    shifted = False
+    if case.get("param_shift"):
+        def _logits_of(d):
+            return getattr(d, "base_dist", d).logits
+
+        with torch.no_grad():
+            for d in ([proposal] if density is proposal else [proposal, density]):
+                lg = _logits_of(d)
+                sh = torch.tensor([case["param_shift"][i % len(case["param_shift"])] / 4.0 for i in range(lg.numel())],
+                                  dtype=lg.dtype).reshape(lg.shape)
+                lg.add_(sh)
+        shifted = True
 
     def one_call(spec, what):
         props = _imh_proposals(spec, ndraws, B, S)
@@ -1116,6 +1132,10 @@ def _imh_check(case):
     if case.get("second_call"):
         one_call(case["second_call"], " [second call of the same estimator object]")
         classes.append("second_call")
+    if shifted:
+        classes.append("parameters_changed_in_place_before_call")
+        if init is not None:
+            classes.append("given_start_and_parameters_changed")
     if init is not None:
         require(torch.equal(init, init_before), "the estimator modified the initial sample it was handed", init.tolist(), init_before.tolist())
     if burn:
